@@ -103,6 +103,7 @@ class TaggedDetGrammar(DetGrammar[U, V, W], Generic[T, U, V, W]):
         self, constants: Dict[Type, List[Any]]
     ) -> "TaggedDetGrammar[T, U, V, W]":
         tags: Dict[Tuple[Type, U], Dict[DerivableProgram, T]] = {}
+        constants = {t: Constant.distinct_values(t, v) for t, v in constants.items()}
 
         for S in self.tags:
             tags[S] = {}
@@ -224,6 +225,7 @@ class ProbDetGrammar(TaggedDetGrammar[float, U, V, W]):
         self, constants: Dict[Type, List[Any]]
     ) -> "ProbDetGrammar[U, V, W]":
         tags: Dict[Tuple[Type, U], Dict[DerivableProgram, float]] = {}
+        constants = {t: Constant.distinct_values(t, v) for t, v in constants.items()}
 
         for S in self.tags:
             tags[S] = {}
